@@ -338,6 +338,19 @@ func init() {
 			want := p.formatIntSym(v, signed)
 			return strEq(args[0], want)
 		},
+		// symSharesMemory(a, b): some mutable heap location (pointer target, slice
+		// element, map) is reachable from both a and b.
+		"symSharesMemory": func(p *Path, fr *frame, args []value) value {
+			la, lb := map[interface{}]bool{}, map[interface{}]bool{}
+			collectLocs(args[0], la, map[interface{}]bool{})
+			collectLocs(args[1], lb, map[interface{}]bool{})
+			for k := range la {
+				if lb[k] {
+					return termTrue
+				}
+			}
+			return termFalse
+		},
 		// symStrEq(a, b): a == b as a single term
 		"symStrEq": func(p *Path, fr *frame, args []value) value { return strEq(args[0], args[1]) },
 	}
